@@ -1,4 +1,5 @@
 import SafeNet.Proofs.ClientRead
+import SafeNet.Proofs.SelfEnc
 /-!
 C15 — client reads are authenticated against the requested address.
 Statements are over the model of `chunk_get` / `data_get_public` / `get_vault_from_network` in
@@ -8,7 +9,7 @@ The reply is whatever the swarm driver answers to `GetNetworkRecord` (a record, 
 iteration order, or an error), i.e. every set of replies an adversarial set of holders can cause.
 -/
 namespace SafeNet.Props.C15
-open SafeNet.Model.SelfEnc SafeNet.Model.ClientRead SafeNet.Proofs.ClientRead
+open SafeNet.Model.SelfEnc SafeNet.Model.ClientRead SafeNet.Proofs.ClientRead SafeNet.Proofs.SelfEnc
 
 variable {B DM : Type}
 
@@ -87,6 +88,21 @@ theorem data_authentic (S : SE B DM) (replies : Nat → Reply B) (fuel : Nat) (c
   · cases h
   · rename_i m hm
     exact ⟨m, hm, (chunk_authentic S addr _ m hm).1, h, fun a c hc => (chunk_authentic S a _ c hc).1⟩
+
+/-- Holders cannot substitute content: with a collision-free hash, any two successful public reads of the same
+address return the same data — whatever the two sets of holders replied, in whatever orders the fetches completed,
+through however many data-map levels. (So a read either fails or returns what an honest network returns.) -/
+theorem data_unforgeable (S : SE B DM) (L : Laws S) (replies replies' : Nat → Reply B) (fuel fuel' : Nat)
+    (codes codes' : List (List Nat)) (addr : Nat) (d d' : B)
+    (h : dataGetPublic S replies fuel codes addr = .ok d) (h' : dataGetPublic S replies' fuel' codes' addr = .ok d') :
+    d = d' := by
+  obtain ⟨m, hm, hmh, hf, _⟩ := data_authentic S replies fuel codes addr d h
+  obtain ⟨m', hm', hmh', hf', _⟩ := data_authentic S replies' fuel' codes' addr d' h'
+  have hmm : m.value = m'.value := L.hash_inj _ _ (hmh.trans hmh'.symm)
+  rw [← hmm] at hf'
+  refine fetch_chunk_agree S L _ _ ?_ fuel fuel' codes codes' m.value d d' hf hf'
+  intro a c c' hc hc'
+  exact L.hash_inj _ _ (((chunk_authentic S a _ c hc).1).trans ((chunk_authentic S a _ c' hc').1).symm)
 
 /-! ### vault_authentic -/
 
@@ -286,6 +302,7 @@ end SafeNet.Props.C15
 #print axioms SafeNet.Props.C15.chunk_authentic
 #print axioms SafeNet.Props.C15.chunk_kind_checked
 #print axioms SafeNet.Props.C15.data_authentic
+#print axioms SafeNet.Props.C15.data_unforgeable
 #print axioms SafeNet.Props.C15.vault_authentic
 #print axioms SafeNet.Props.C15.no_authentic_no_chunk
 #print axioms SafeNet.Props.C15.no_authentic_no_vault
